@@ -599,6 +599,7 @@ func s3Gen(r *Rng, tier string) Case {
 func s3Monitor(lines, outs []string, m *Model) []Violation {
 	var vs []Violation
 	ks := "e"
+	s3Budget := -1
 	for i, l := range lines {
 		if i >= len(outs) {
 			break
@@ -606,7 +607,21 @@ func s3Monitor(lines, outs []string, m *Model) []Violation {
 		f := strings.Fields(l)
 		if len(f) == 5 && f[1] == "cfg" {
 			ks = f[2]
+			s3Budget, _ = strconv.Atoi(f[4])
 			continue
+		}
+		// C17: a sink that keeps failing stops the worker within its retry budget
+		if s3Budget >= 0 {
+			for _, w := range strings.Fields(outs[i]) {
+				if strings.HasPrefix(w, "att=") && w != "att=-" {
+					if n := strings.Count(w, ";") + 1; n > s3Budget+1 {
+						return append(vs, Violation{"C17", fmt.Sprintf("the S3 worker made %d PutObject attempts for one batch with a retry budget of %d (%s)", n, s3Budget, outs[i][:80]), ""})
+					}
+				}
+			}
+			if strings.HasPrefix(outs[i], "exhausted") && strings.Contains(outs[i], "terminated=false") {
+				return append(vs, Violation{"C17", "retry budget exhausted but the termination signal was not raised: " + outs[i][:120], ""})
+			}
 		}
 		if len(f) != 11 || f[1] != "batch" || outs[i] == "bad-op" {
 			continue
